@@ -76,7 +76,16 @@ def r2_edit_prov(c, facts):
                         ident = False
                     inst_prod = prods
             ns = MF.slice_back(fn, t['args'][1]['l'], idx) if 'l' in t['args'][1] else {'args': set()}
-            newname = 3 in ns['args']      # parameter `new_name`
+            # the requested name: the `&str` parameter, or the like-named field of a parameter object (`job.new_name`)
+            strp = {i for i in range(1, fn.mir['argc'] + 1) if fn.mir['locals'][i]['ty'].replace(' ', '') in ('&str', "&'_str")}
+            newname = bool(strp & ns['args'])
+            if not newname and 'l' in t['args'][1]:
+                for l in ns.get('locals', set()) | {t['args'][1]['l']}:
+                    for kind, bi, x in idx.get(l, []):
+                        if kind == 'assign' and x['rv']['r'] in ('use', 'ref'):
+                            pl = x['rv']['op'] if x['rv']['r'] == 'use' else x['rv']['place']
+                            if 'l' in pl and MF.field_path(pl)[-1:] == ['new_name']:
+                                newname = True
             inst = {'fn': q, 'line': t['ln'], 'range_from': sorted(set(names) & {'node_location', 'find_references', 'identifier', 'first', 'qualifier'}), 'text_is_new_name': newname}
             if via_loc and ident and newname:
                 c.ok(R, inst)
@@ -91,7 +100,8 @@ def r2_edit_prov(c, facts):
         # the definition searched is the one being renamed
         idx = MF.defs_index(rv)
         a = MF.slice_back(rv, fr[0][1]['args'][2]['l'], idx)
-        if 4 in a['args']:
+        defp = {i for i in range(1, rv.mir['argc'] + 1) if 'definition::Definition' in rv.mir['locals'][i]['ty']}
+        if defp & a['args']:
             c.ok(R, {'rename_variable': 'edits every reference of the renamed definition (find_references(definition))'})
         else:
             c.bad(R, 'rename-references-of-other-definition', 'rename_variable collects references of a definition other than the one being renamed')
